@@ -747,11 +747,18 @@ struct Runner {
             if (!(a == a) || !(b == b)) mismatch(EQ, std::string(what) + "_not_reflexive", "");
         })
     }
-    void doCopy() {
-        std::unique_ptr<G> h(new G(*g));
+    void doCopy(const sim::Op &op) {
+        std::unique_ptr<G> h;
+        if (op.a & 64) { // copy, then move construction from the temporary copy
+            G tmp(*g);
+            h.reset(new G(std::move(tmp)));
+            res.probes.inc("move_constructed_from_copy");
+        } else h.reset(new G(*g));
         ++faultsFired;
         res.faults.inc("snapshot_copy");
-        if (!m.hasDuplicates()) eqOracle(*h, *g, true, "copy");
+        // a "silent" snapshot: no observer touches the copy before the history continues on it
+        if (op.y & F_NOSWEEP) res.probes.inc("silent_snapshot");
+        else if (!m.hasDuplicates()) eqOracle(*h, *g, true, "copy");
         freezeCurrent(std::move(h));
     }
     void doAssign(const sim::Op &op) {
@@ -767,10 +774,13 @@ struct Runner {
         Model hm; hm.directed = directed; hm.n = (unsigned)h->getSize();
         junkHistory(*h, hm, (uint64_t)op.x * 2654435761ULL + 17, 1 + (int)modn(op.a, 12), nmax);
         if (!hm.e.empty()) res.probes.inc("assign_over_dirty_object");
-        *h = *g;
+        if (hm.n > m.n) res.probes.inc("assign_from_smaller_graph");
+        if (op.b & 64) { *h = G(*g); res.probes.inc("assigned_from_temporary"); } // assignment from an rvalue (what `g = load(...)` does)
+        else *h = *g;
         ++faultsFired;
         res.faults.inc("snapshot_assign");
-        if (!m.hasDuplicates()) eqOracle(*h, *g, true, "assign");
+        if (op.y & F_NOSWEEP) res.probes.inc("silent_snapshot");
+        else if (!m.hasDuplicates()) eqOracle(*h, *g, true, "assign");
         freezeCurrent(std::move(h));
     }
     void checkFrozen(bool atEnd) {
@@ -918,6 +928,30 @@ struct Runner {
         eqOracle(*g, *B, expect, mode == 0 ? "replica_same" : mode == 1 ? "replica_diff" : "replica_indep");
     }
 
+    // A labelled-graph VALUE copied from asLabeledGraph() of a weighted graph / multigraph is an ordinary labelled graph:
+    // removeEdge on it removes every copy of the pair, an unforced addEdge of a present pair changes nothing.
+    void doAsLabeled(const sim::Op &op) {
+        if constexpr (kind == MULTI || kind == WEIGHTED) {
+            if (m.e.empty()) { res.probes.inc("aslabeled_skipped"); return; }
+            auto copy = g->asLabeledGraph(); // a value, not a reference
+            auto it = m.e.begin();
+            std::advance(it, (long)modn(op.a * 131 + op.b, (unsigned)m.e.size()));
+            unsigned a = it->first.first, b = it->first.second;
+            if (!directed && (op.y & F_FLIP)) std::swap(a, b);
+            const size_t before = copy.getEdgeNumber();
+            copy.addEdge(a, b, typename A::Lab(), false);
+            if (copy.getEdgeNumber() != before) mismatch(STRUCT, "aslabeled_copy_readd_changed_count", "");
+            copy.removeEdge(a, b);
+            size_t left = 0;
+            for (auto x : copy.getOutNeighbours(a)) if (x == b) ++left;
+            if (!directed) for (auto x : copy.getOutNeighbours(b)) if (x == a && a != b) ++left;
+            if (copy.hasEdge(a, b) || left != 0 || copy.getEdgeNumber() != before - (size_t)it->second.copies)
+                mismatch(STRUCT, "aslabeled_copy_removeEdge", "pair (" + std::to_string(a) + "," + std::to_string(b) + ") copies " + std::to_string(it->second.copies) + " left " + std::to_string(left));
+            ++faultsFired;
+            res.faults.inc("aslabeled_copy_then_remove");
+        }
+    }
+
     // defined in other headers
     void doReject(const sim::Op &op);   // reject.hpp
     void doPersist(const sim::Op &op);  // io.hpp
@@ -949,18 +983,19 @@ struct Runner {
         dg.tag(op.k.c_str()); dg.i64(op.a); dg.i64(op.b); dg.i64(op.x); dg.i64(op.y);
         try {
             if (isMutator(op.k)) applyMut(*g, m, op);
-            else if (op.k == "copy") doCopy();
+            else if (op.k == "copy") doCopy(op);
             else if (op.k == "assign") doAssign(op);
             else if (op.k == "replica") doReplica(op);
             else if (op.k == "reject") doReject(op);
             else if (op.k == "persist") doPersist(op);
             else if (op.k == "openfail" || op.k == "loadraw" || op.k == "cutall" || op.k == "bigio") doIo(op);
             else if (op.k == "alg") doAlg(op);
+            else if (op.k == "aslabeled") doAsLabeled(op);
             else res.probes.inc("unknown_op");
         } catch (const std::exception &ex) {
             mismatch(catOfOp(op.k), "unexpected_exception", ex.what());
         }
-        const bool skip = isMutator(op.k) && (op.y & F_NOSWEEP);
+        const bool skip = (isMutator(op.k) || op.k == "copy" || op.k == "assign") && (op.y & F_NOSWEEP);
         if (skip) { res.probes.inc("steps_without_observers"); sweepPending = true; }
         if (pending.empty() && !skip) {
             sweep(*g, m, "cur");
